@@ -89,7 +89,8 @@ def run(tier, seed):
                  "stream position and the length handed to the CRC routine are the same SSA value, which counts exactly the bytes "
                  "memcpy'd to the caller's buffer; the request is clamped to 'declared length - position'; each copy is bounded by "
                  "min(buffered, remaining request); the buffer cursor advances by the bytes copied and is reset only when the "
-                 "buffer is refilled from the decoder; progress blocks rise by exactly one per callback up to the announced total. "
+                 "buffer is refilled from the decoder; progress blocks rise by exactly one per callback up to the announced total; at every "
+                 "input-callback site a byte of a local buffer is consumed only under a fact implying that the callback delivered it (short-read discipline). "
                  "Not decided: split-invariance as an equality over read histories (follows from these rules only informally).")
     with Context(tier) as ctx:
         from .. import selfcheck
